@@ -234,14 +234,14 @@ type CbWorld struct {
 	prefix map[string]int64 // calibrated gas consumed before the callback, per type/proto/ackKind
 
 	// current case
-	proto      string
-	sb0, rb0   sdkmath.Int
-	eb0        sdkmath.Int
-	escrow     sdk.AccAddress
-	pktV1      *channeltypes.Packet
-	pktV2      *channeltypesv2.Packet
-	asyncSeq   uint64
-	voucher    string
+	proto    string
+	sb0, rb0 sdkmath.Int
+	eb0      sdkmath.Int
+	escrow   sdk.AccAddress
+	pktV1    *channeltypes.Packet
+	pktV2    *channeltypesv2.Packet
+	asyncSeq uint64
+	voucher  string
 }
 
 func NewCbWorld(t *testing.T) *CbWorld {
@@ -249,8 +249,12 @@ func NewCbWorld(t *testing.T) *CbWorld {
 	w.coord = ibctesting.NewCustomAppCoordinator(t, 2, setupCbApp)
 	w.A = w.coord.GetChain(ibctesting.GetChainID(1))
 	w.B = w.coord.GetChain(ibctesting.GetChainID(2))
-	w.getA = func(ctx sdk.Context, addr sdk.AccAddress) sdk.AccountI { return cbApp(w.A).AccountKeeper.GetAccount(ctx, addr) }
-	w.getB = func(ctx sdk.Context, addr sdk.AccAddress) sdk.AccountI { return cbApp(w.B).AccountKeeper.GetAccount(ctx, addr) }
+	w.getA = func(ctx sdk.Context, addr sdk.AccAddress) sdk.AccountI {
+		return cbApp(w.A).AccountKeeper.GetAccount(ctx, addr)
+	}
+	w.getB = func(ctx sdk.Context, addr sdk.AccAddress) sdk.AccountI {
+		return cbApp(w.B).AccountKeeper.GetAccount(ctx, addr)
+	}
 	w.p1 = ibctesting.NewTransferPath(w.A, w.B)
 	w.p1.Setup()
 	w.p2 = ibctesting.NewPath(w.A, w.B)
@@ -735,9 +739,10 @@ func (w *CbWorld) Calibrate(cases []CbCase) error {
 // ---- function level: types.GetCallbackData over scaled (remaining, user, max) triples -------------------
 
 type FnCase struct {
-	Rem  int `json:"rem"`
-	User int `json:"user"`
-	Max  int `json:"max"`
+	ID   string `json:"id"`
+	Rem  int    `json:"rem"`
+	User int    `json:"user"`
+	Max  int    `json:"max"`
 }
 
 type FnLine struct {
@@ -782,8 +787,8 @@ func rank(scale []uint64, v uint64) int {
 }
 
 func RunFn(cases []FnCase, emit func(FnLine)) {
-	n := 0
 	for _, c := range cases {
+		n := 0
 		for si, scale := range fnScales {
 			if c.Rem >= len(scale) || c.User >= len(scale) || c.Max >= len(scale) {
 				continue
@@ -801,7 +806,7 @@ func RunFn(cases []FnCase, emit func(FnLine)) {
 					cb[callbacktypes.UserDefinedGasLimitKey] = ""
 				}
 				n++
-				line := FnLine{Tr: "fn", I: n, Rem: c.Rem, User: c.User, Max: c.Max, Scale: si, Enc: enc, Exec: -1, Commit: -1}
+				line := FnLine{Tr: c.ID, I: n, Rem: c.Rem, User: c.User, Max: c.Max, Scale: si, Enc: enc, Exec: -1, Commit: -1}
 				func() {
 					defer func() {
 						if r := recover(); r != nil {
